@@ -246,6 +246,50 @@ theorem rtbCore_affine_form (r : Rtb K) (neg : Bool) (hb : r.b0 < r.b1) :
         · simp only [rescaleZeroToOne, reduceCtorEq, if_false, if_true]; field_simp; ring
         · simp only [rescaleZeroToOne]; rw [habs2]
 
+/-- with bounds in order and a non-degenerate target interval the core factor is strictly positive
+(so the code's `log` of it is a real number, not NaN / -inf) and it does not depend on the sign bit -/
+theorem rtbCore_jac_pos (r : Rtb K) (neg : Bool) (y : K) (hb : r.b0 < r.b1) (hf : r.FactorOK) :
+    0 < (rtbCore r neg y).2 := by
+  have hpos : 0 < r.b1 - r.b0 := sub_pos.mpr hb
+  unfold rtbCore
+  cases hinv : r.inversion with
+  | none =>
+    have hfac : 0 < r.factor := lt_of_le_of_ne (ptp_nonneg _ _) (Ne.symm (ptp_ne_zero (hf hinv)))
+    exact div_pos hfac hpos
+  | some t =>
+    cases hedge : r.edge <;> simp only [rescaleMinusOneToOne, rescaleZeroToOne, two_eq] <;> positivity
+
+theorem rtbCore_jac_neg (r : Rtb K) (neg : Bool) (y y' : K) : (rtbCore r neg y).2 = (rtbCore r false y').2 := by
+  unfold rtbCore
+  cases r.inversion with
+  | none => rfl
+  | some t => cases r.edge <;> simp [rescaleMinusOneToOne, rescaleZeroToOne]
+
+/-- the factors the hooks report at the points where they are applied are positive (they are `exp` of a log-Jacobian) -/
+def Rtb.HooksPos (r : Rtb K) (neg : Bool) (x : K) : Prop :=
+  0 < (r.preF x).2 ∧ 0 < (r.postF (rtbCore r neg (r.preF x).1).1).2
+
+theorem hooksPos_none (r : Rtb K) (neg : Bool) (x : K) (h1 : r.pre = none) (h2 : r.post = none) : r.HooksPos neg x := by
+  unfold Rtb.HooksPos Rtb.preF Rtb.postF
+  rw [h1, h2]; simp
+
+/-- round trip, reciprocal factors, and both factors strictly positive: "J_fwd·J_inv = 1" is then literally
+"log J_fwd = −log J_inv" with both logarithms defined -/
+theorem rtb_lawful_pos (r : Rtb K) (neg : Bool) (x : K) (hb : r.b0 < r.b1) (hf : r.FactorOK)
+    (hok : r.ReflectOK (r.preF x).1) (hh : r.HooksOK neg x) (hp : r.HooksPos neg x) :
+    ScalarLawfulAt (rtbFwd r neg) (rtbInv r) x ∧ 0 < (rtbFwd r neg x).2 ∧ 0 < (rtbInv r (rtbFwd r neg x).1).2 := by
+  have hl := rtb_lawful r neg x (ne_of_lt hb) hf hok hh
+  have hJ : 0 < (rtbFwd r neg x).2 := by
+    simp only [rtbFwd]
+    exact mul_pos (mul_pos hp.1 (rtbCore_jac_pos r neg _ hb hf)) hp.2
+  refine ⟨hl, hJ, ?_⟩
+  have h1 := hl.2
+  by_contra hneg
+  have : (rtbFwd r neg x).2 * (rtbInv r (rtbFwd r neg x).1).2 ≤ 0 :=
+    mul_nonpos_of_nonneg_of_nonpos hJ.le (not_lt.mp hneg)
+  rw [h1] at this
+  exact absurd this (not_le.mpr one_pos)
+
 theorem rtbFwd_affineJ (r : Rtb K) (neg : Bool) (hb : r.b0 < r.b1) (hpre : AffineJ r.preF) (hpost : AffineJ r.postF) :
     AffineJ (rtbFwd r neg) := by
   have h1 := AffineJ.comp hpre (rtbCore_affineJ r neg hb)
